@@ -586,19 +586,23 @@ class Evaluator:
 
     def s_If(self, st, fr):
         c = self.expr(st.test, fr)
+        body, orelse = st.body, st.orelse
+        # `if not c: A else: B` is `if c: B else: A`: conditions are recorded without an outer negation
+        while c[0] == "unop" and c[1] == "not":
+            c, body, orelse = c[2], orelse, body
         sv = self.static_truth(c)
         if sv is True:
-            return self.block(st.body, fr)
+            return self.block(body, fr)
         if sv is False:
-            return self.block(st.orelse, fr)
+            return self.block(orelse, fr)
         base_env, base_guards = fr.env, fr.guards
         fr.env = dict(base_env)
         fr.guards = base_guards + ((c, True),)
-        ra = self.block(st.body, fr)
+        ra = self.block(body, fr)
         env_a = fr.env
         fr.env = dict(base_env)
         fr.guards = base_guards + ((c, False),)
-        rb = self.block(st.orelse, fr)
+        rb = self.block(orelse, fr)
         env_b = fr.env
         fr.guards = base_guards
         a_falls = ra is None or has_noret(ra)
@@ -1051,6 +1055,8 @@ class Evaluator:
         if sv is False:
             return self.expr(e.orelse, fr)
         a, b = self.expr(e.body, fr), self.expr(e.orelse, fr)
+        while c[0] == "unop" and c[1] == "not":   # a if not c else b  ==  b if c else a
+            c, a, b = c[2], b, a
         if a == C(True) and b == C(False):
             return c
         if a == C(False) and b == C(True):
